@@ -18,6 +18,7 @@ package main
 import (
 	"fmt"
 	"go/constant"
+	"go/types"
 	"os"
 	"path/filepath"
 	"sort"
@@ -131,6 +132,12 @@ func getFieldModel(x *Exec, fr *frame, ins ssa.CallInstruction, c *ssa.CallCommo
 		x.vc.S.decl[key] = true
 		ft := deref(c.Signature().Results().At(0).Type())
 		x.validFacts(x.vc.baseMem, ft, "REQ", off, "true", 1)
+		// the payload of a request field is neither the requesting ClientConn object nor the request object
+		doff, _ := x.fieldAt(types.NewPointer(ft), "Data")
+		dref := sel(x.vc.baseMem, "REQ", add(off, itoa(int64(doff))))
+		x.vc.S.raw("(assert (and (not (= " + dref + " p_cc_0)) (not (= " + dref + " REQ))))")
+		x.vc.markDistinct(dref, "p_cc_0")
+		x.vc.markDistinct(dref, "REQ")
 	}
 	return Val{ic("REQ"), ic(off)}, r
 }
@@ -205,6 +212,8 @@ func handlerSetup(x *Exec) {
 	// the parsed request lives in a ghost object that no callee writes
 	S.raw(fmt.Sprintf("(define-fun REQ () Int %d)", maxGlobals-7))
 	x.vc.stable = append(x.vc.stable, "REQ")
+	// callees without contract do not write the requesting ClientConn object itself
+	x.vc.stable = append(x.vc.stable, "p_cc_0")
 	x.vc.nonNil["REQ"] = true
 }
 
@@ -246,6 +255,70 @@ func constStringArg(v ssa.Value) (string, bool) {
 func init() {
 	plugins["privileges"] = pluginPrivileges
 	plugins["handler-contract"] = pluginHandlerContract
+	plugins["sites"] = pluginSites
+}
+
+// ---- stream models used by the call-site plug-in (assumed contracts from package io's documentation)
+
+func ghostWritten(x *Exec, dst Val) string { return "written:" + x.vc.canon(dst[1].T) }
+
+// io.CopyN(dst, src, n): copies k <= n bytes; err == nil iff k == n
+func ioCopyNModel(x *Exec, fr *frame, ins ssa.CallInstruction, c *ssa.CallCommon, args []Val, st *State, r string) (Val, string) {
+	used("io.CopyN(dst, src, n): writes k <= n bytes to dst, returns (k, nil) iff k == n (otherwise a non-nil error)")
+	res := x.opaqueCall("io.CopyN", c.Signature().Results(), st, r)
+	k, n := res[0].T, args[2][0].T
+	x.vc.S.fact(r, and(sx("<=", "0", k), sx("<=", k, ite(sx(">=", n, "0"), n, "0")), eq(eq(res[1].T, "0"), eq(k, ite(sx(">=", n, "0"), n, "0")))))
+	g := ghostWritten(x, args[0])
+	st.Ghost[g] = x.vc.S.def("g_written", ic(add(ghost(st, g), k))).T
+	return res, r
+}
+
+// io.Copy(dst, src): copies until EOF on src; a nil error says nothing about how many bytes there were
+func ioCopyModel(x *Exec, fr *frame, ins ssa.CallInstruction, c *ssa.CallCommon, args []Val, st *State, r string) (Val, string) {
+	used("io.Copy(dst, src): writes k >= 0 bytes to dst until src reports EOF; EOF is not an error")
+	res := x.opaqueCall("io.Copy", c.Signature().Results(), st, r)
+	x.vc.S.fact(r, sx("<=", "0", res[0].T))
+	g := ghostWritten(x, args[0])
+	st.Ghost[g] = x.vc.S.def("g_written", ic(add(ghost(st, g), res[0].T))).T
+	return res, r
+}
+
+// a Write on an interface-typed writer (a connection): counted
+func connWriteModel(x *Exec, fr *frame, ins ssa.CallInstruction, c *ssa.CallCommon, args []Val, st *State, r string) (Val, string) {
+	res := x.opaqueCall("Write", c.Signature().Results(), st, r)
+	st.Ghost["connwrites"] = x.vc.S.def("g_connwrites", ic(add(ghost(st, "connwrites"), "1"))).T
+	return res, r
+}
+
+func sitesOver() map[string]stdModel {
+	return map[string]stdModel{"io.CopyN": ioCopyNModel, "io.Copy": ioCopyModel,
+		"(io.ReadWriteCloser).Write": connWriteModel, "(io.Writer).Write": connWriteModel, "(io.ReadWriter).Write": connWriteModel}
+}
+
+// pluginSites runs a function on its own (callees are not looked into) and keeps the
+// obligations of its contract: call-site assertions, postconditions over ghost stream state.
+func pluginSites(r *Run, it Item) {
+	key := it.Func
+	if r.Eng.contracts[key] == nil {
+		r.Errors = append(r.Errors, key+": no contract found for a function of the plan")
+		return
+	}
+	fr := r.Eng.verifyFuncOpts(key, RunOpts{Trace: true, Depth: 0, Over: sitesOver()})
+	r.results[key] = fr
+	if fr.Err != "" {
+		r.Errors = append(r.Errors, key+": "+fr.Err)
+		return
+	}
+	r.Funcs = append(r.Funcs, key)
+	var keep []*Obligation
+	for _, o := range fr.VC.obls {
+		if o.Cover || kindOK(it.Kinds, o.Kind) {
+			keep = append(keep, o)
+		}
+	}
+	fr.VC.obls = keep
+	r.pending = append(r.pending, pendingVC{fr.VC, r.Prop + "_" + key})
+	r.Notes = append(r.Notes, fr.VC.notes...)
 }
 
 // pluginHandlerContract runs one handler in mode A (same abstractions as the privilege
@@ -302,6 +375,7 @@ func pluginPrivileges(r *Run, it Item) {
 		r.Errors = append(r.Errors, "mobius.RegisterHandlers: no registered handlers found")
 		return
 	}
+	r.assume("callees without contract (manager / file store interfaces, library calls) write neither the parsed request nor the fields of the requesting ClientConn object")
 	r.assume("Authorize(recv, i) is abstracted to priv(recv, i): the requester's bitmap is read consistently during one handler invocation")
 	r.assume("all FileMode.IsDir/IsRegular and FilePath.IsUploadDir/IsDropbox queries in one handler concern the request's target; an existing file-system target is a directory or a regular file")
 	for _, h := range handlers {
@@ -312,7 +386,20 @@ func pluginPrivileges(r *Run, it Item) {
 			continue
 		}
 		tgen := time.Now()
-		fr := r.Eng.verifyFuncOpts(key, RunOpts{Trace: true, Depth: 3, Over: handlerOver(), Opaque: handlerOpaque, Setup: handlerSetup})
+		over := handlerOver()
+		// flag words are irrelevant to the privilege obligations: keep their arithmetic out of the VCs
+		havocRes := func(x *Exec, fr *frame, ins ssa.CallInstruction, c *ssa.CallCommon, args []Val, st *State, rr string) (Val, string) {
+			return x.opaqueCall(x.calleeName(c), c.Signature().Results(), st, rr), rr
+		}
+		for _, n := range []string{"math/big.NewInt", "(*math/big.Int).Bit", "(*math/big.Int).SetBit", "(*math/big.Int).Int64"} {
+			over[n] = havocRes
+		}
+		over["(*hotline.UserFlags).Set"] = func(x *Exec, fr *frame, ins ssa.CallInstruction, c *ssa.CallCommon, args []Val, st *State, rr string) (Val, string) {
+			// writes the two bytes of the flag word
+			x.vc.store(st, args[0][0].T, args[0][1].T, x.havocVal(deref(c.Args[0].Type()), st, rr, "flags"))
+			return Val{}, rr
+		}
+		fr := r.Eng.verifyFuncOpts(key, RunOpts{Trace: true, Depth: 3, Over: over, Opaque: handlerOpaque, Setup: handlerSetup})
 		r.results[key] = fr
 		if os.Getenv("GOVC_TIMING") != "" {
 			fmt.Fprintf(os.Stderr, "timing: gen %s %.2fs\n", key, time.Since(tgen).Seconds())
